@@ -277,6 +277,8 @@ func (f *Frame) appendOp(c *ssa.CallCommon, pos token.Pos) Val {
 					n, h1, resArr, resOff, ln, h0, xarr, xoff, h1, resArr, resOff, ln))
 				f.assume(implies(app(">=", n, "1"), eq(app("select", h1, vc.elemRef(resArr, app("+", resOff, ln))), app("select", h0, vc.elemRef(xarr, xoff)))))
 			}
+			// "the last element" as specifications write it (s[len(s)-1]) is the appended one
+			f.assume(implies(eq(n, "1"), eq(vc.elemRef(resArr, app("+", resOff, app("-", newLen, "1"))), vc.elemRef(resArr, app("+", resOff, ln)))))
 			// nested struct leaves are addressed through sub-references of the element reference; the
 			// assumptions above cover direct leaves only.
 			if hasNestedStruct(et) {
